@@ -9,7 +9,7 @@ from fractions import Fraction
 import z3
 
 from .values import *   # noqa
-from .values import (Unsupported, PyRaise, Cx, VTuple, VList, VDict, VMap, VOpt, VObj, VSym, VClass,
+from .values import (Unsupported, PyRaise, Cx, VTuple, VList, VDict, VMap, VOpt, VObj, VSym, VClass, VComp,
                      VFunc, VBuiltin, VModule, VBoundMethod, VExcInstance, VStr, NAN, INF)
 
 PI = z3.Real("pi")
@@ -176,11 +176,32 @@ def _b_len(interp, st, args, kw):
     if isinstance(v, VSym):
         return v.theory.len(interp, st, v)
     if isinstance(v, VMap):
-        card = st.ghost.get("card")
-        if card is not None:
-            return card(interp, st, v)
-        raise Unsupported("len of symbolic map")
+        return card_of(interp, st, v)
     _raise("TypeError", "object has no len()")
+
+
+_CARD = {}
+
+
+def card_fn(ksort):
+    key = str(ksort)
+    if key not in _CARD:
+        _CARD[key] = z3.Function("card_" + key, z3.ArraySort(ksort, z3.BoolSort()), z3.IntSort())
+    return _CARD[key]
+
+
+def card_of(interp, st, m):
+    """number of keys of a finite map: uninterpreted except card >= 0, card == 0 iff empty,
+    card == 1 iff exactly one key (the instances used by the code under contract)"""
+    c = card_fn(m.ksort)(m.dom)
+    k = z3.Const("k!card", m.ksort)
+    j = z3.Const("j!card", m.ksort)
+    st.assume(c >= 0)
+    st.assume((c == 0) == z3.Not(z3.Exists([k], z3.Select(m.dom, k))))
+    st.assume((c == 1) == z3.Exists([k], z3.And(z3.Select(m.dom, k),
+                                                z3.ForAll([j], z3.Implies(z3.Select(m.dom, j), j == k)))))
+    interp.assumed.add("A3 len(dict): cardinality of the key set (only ==0 and ==1 characterised)")
+    return c
 
 
 def _b_abs(interp, st, args, kw):
@@ -250,8 +271,18 @@ def _b_list(interp, st, args, kw):
     v = interp.resolve(st, args[0])
     if isinstance(v, VSym):
         return v.theory.to_list(interp, st, v)
-    if isinstance(v, VMap):
-        raise Unsupported("list() of symbolic map")
+    if isinstance(v, (VMap, MapItems)):
+        m = v.m if isinstance(v, MapItems) else v
+        what = v.what if isinstance(v, MapItems) else "keys"
+        c = card_of(interp, st, m)
+        if not st.feasible(c != 1):
+            k = st.fresh("k_only", m.ksort)
+            j = z3.Const("j!only", m.ksort)
+            st.assume(z3.And(z3.Select(m.dom, k), z3.ForAll([j], z3.Implies(z3.Select(m.dom, j), j == k))))
+            kv = interp.map_wrap_key(m, k)
+            vv = interp.map_wrap_val(m, z3.Select(m.val, k))
+            return VList([{"keys": kv, "values": vv, "items": VTuple([kv, vv])}[what]])
+        raise Unsupported("list() of symbolic map with unknown size")
     return VList(interp.iterate_concrete(st, v))
 
 
@@ -259,6 +290,14 @@ def _b_dict(interp, st, args, kw):
     d = VDict()
     if args:
         v = interp.resolve(st, args[0])
+        if isinstance(v, VComp):
+            # dict((key, value) for key, m in M.items()): keys must be the keys of M themselves
+            e = v.elt
+            if isinstance(e, VTuple) and len(e.items) == 2 and isinstance(e.items[0], VSym) \
+                    and z3.eq(e.items[0].expr, v.k) and is_num(e.items[1]):
+                val = z3.Lambda([v.k], to_real(e.items[1]))
+                return VMap(comp_domain(v), val, v.m.ksort, z3.RealSort(), v.m.wrap)
+            raise Unsupported("dict() of a comprehension whose keys are not the iterated keys")
         if isinstance(v, VDict):
             d.entries = [[k, x] for k, x in v.entries]
         elif isinstance(v, VMap):
@@ -338,9 +377,24 @@ def _b_str(interp, st, args, kw):
     return VStr("str(%s)" % type(v).__name__)
 
 
+def comp_domain(c):
+    dom = c.m.dom
+    if c.conds:
+        from .spec import _b
+        dom = z3.Lambda([c.k], z3.And([z3.Select(c.m.dom, c.k)] + [_b(x) for x in c.conds]))
+    return dom
+
+
 def _b_sum(interp, st, args, kw):
     v = interp.resolve(st, args[0])
     total = args[1] if len(args) > 1 else 0
+    if isinstance(v, VComp):
+        from . import spec
+        if not is_num(v.elt):
+            raise Unsupported("sum of non-numeric comprehension")
+        f = z3.Lambda([v.k], to_real(v.elt))
+        r = spec.SumOver(st, comp_domain(v), f, v.m.ksort)
+        return num_add(total, r)
     if isinstance(v, VSym):
         return v.theory.sum(interp, st, v, total)
     from ast import Add
